@@ -916,6 +916,16 @@ func (a *A) ruleWriters(rule string, W *types.Named, field string, allowed map[s
 	for _, fn := range a.ModFuncs {
 		for _, st := range storesToField(fn, f) {
 			n := fname(fn)
+			if _, listed := allowed[n]; !listed && fn.Parent() != nil {
+				// a function literal writes on behalf of the function it is written in
+				top := fn
+				for top.Parent() != nil {
+					top = top.Parent()
+				}
+				if _, ok := allowed[fname(top)]; ok {
+					n = fname(top)
+				}
+			}
 			// initialisation of an object the function has just allocated is not a write to shared state
 			// (and whether a zero-valued field of a composite literal is stored at all depends on the
 			// go/ssa version); constructors named in the table still get their obligation
